@@ -12,6 +12,7 @@ events (`setup`, `rolloutStart`, `step`, `progress`, `rolloutEnd`, `train`, `fin
 -/
 import SB3Verif.Lemmas.Learn
 import SB3Verif.Props.C12C13
+import SB3Verif.Props.C08C12
 
 namespace SB3Verif.C12
 
@@ -372,5 +373,27 @@ example : onTrainCounts 2 ⟨4, false, 3, 2⟩ [false, false, false, false, true
 example : onTrainCounts 2 ⟨4, false, 3, 2⟩ [false, false, false, false, false, false, true] = (6, 2) := by decide
 example : onTrainCounts 2 ⟨4, false, 3, 2⟩ [true] = (0, 1) := by decide
 example : linearFn 1 (1 / 20) (1 / 10) (19 / 20) = 21 / 40 := by decide +kernel
+
+/-- Re-export of `C08C12.dqn_updates_of_history` / `td3_updates_of_history` / `dqn_updates_of_stretch`
+(`Props/C08C12.lean`): the trace of ANY `learn()` history of this model, fed to C08's counter machine, makes exactly
+`⌊(n_calls₀ + K)/p⌋ − ⌊n_calls₀/p⌋` DQN target updates (`K` = vectorised steps of the trace, `p = max (I / n_envs) 1`),
+no gradient step of DQN touches the target, TD3/DDPG make `⌊(u₀ + G)/delay⌋ − ⌊u₀/delay⌋` delayed updates (`G` = gradient
+steps of the trace), and for a stretch without counter reset `K = Δnum_timesteps / n_envs`. -/
+theorem target_updates_of_learn_history {α : Type} (ccfg : Cadence.Cfg α) (c : Cadence.Ctr)
+    (cfg : Cfg) (s : State) (ops : List Op) :
+    (ccfg.algo = .dqn →
+      (Cadence.envFlags (Cadence.ctrRun ccfg c (C08C12.toCtr (run cfg s ops).2)).2).count true =
+        (c.nCalls + C08C12.stepCount (run cfg s ops).2) / Cadence.dqnEvery ccfg - c.nCalls / Cadence.dqnEvery ccfg ∧
+      (Cadence.gradFlags (Cadence.ctrRun ccfg c (C08C12.toCtr (run cfg s ops).2)).2).count true = 0) ∧
+    (ccfg.algo = .td3 →
+      (Cadence.gradFlags (Cadence.ctrRun ccfg c (C08C12.toCtr (run cfg s ops).2)).2).count true =
+        (c.nUpdates + C08C12.gradCount (run cfg s ops).2) / ccfg.delay - c.nUpdates / ccfg.delay) :=
+  ⟨fun h => C08C12.dqn_updates_of_history ccfg h c cfg s ops, fun h => C08C12.td3_updates_of_history ccfg h c cfg s ops⟩
+
+theorem dqn_updates_of_stretch {α : Type} (ccfg : Cadence.Cfg α) (h : ccfg.algo = .dqn) (c : Cadence.Ctr) (n cur : ℕ)
+    (hn : 0 < n) (evs : List Ev) (hc : countsOk n cur evs) (hs : C08C12.noSetup evs = true) :
+    (Cadence.envFlags (Cadence.ctrRun ccfg c (C08C12.toCtr evs)).2).count true =
+      (c.nCalls + (C08C12.lastNum cur evs - cur) / n) / Cadence.dqnEvery ccfg - c.nCalls / Cadence.dqnEvery ccfg :=
+  C08C12.dqn_updates_of_stretch ccfg h c n cur hn evs hc hs
 
 end SB3Verif.C12
